@@ -147,6 +147,40 @@ fn ext_addsub_real(d: usize, a: &[u64], b: &[u64], sub: bool) -> Vec<F> {
     }
 }
 
+/// pairs (item of powers.repeated_frobenius(k), item.repeated_frobenius(k)) for advanced / shifted iterators
+fn powers_frobenius(d: usize, x: &[u64], start: &[u64]) -> Vec<(Vec<F>, Vec<F>)> {
+    macro_rules! go {
+        ($t:ident, $xa:expr, $sa:expr) => {{
+            let x = $t($xa);
+            let s0 = $t($sa);
+            let mut out = vec![];
+            for k in 1..=2usize {
+                let mut adv = x.powers();
+                adv.nth(2);
+                for pw in [x.powers(), adv, x.shifted_powers(s0)] {
+                    let plain: Vec<$t<F>> = pw.clone().take(3).collect();
+                    let frob: Vec<$t<F>> = pw.repeated_frobenius(k).take(3).collect();
+                    for (g, e) in frob.iter().zip(plain.iter()) {
+                        out.push((g.0.to_vec(), e.repeated_frobenius(k).0.to_vec()));
+                    }
+                    if k == 1 {
+                        for e in plain.iter() {
+                            out.push((e.repeated_frobenius(1).0.to_vec(), e.frobenius().0.to_vec()));
+                        }
+                    }
+                }
+            }
+            out
+        }};
+    }
+    match d {
+        2 => go!(E2, [f(x[0]), f(x[1])], [f(start[0]), f(start[1])]),
+        4 => go!(E4, [f(x[0]), f(x[1]), f(x[2]), f(x[3])], [f(start[0]), f(start[1]), f(start[2]), f(start[3])]),
+        5 => go!(E5, [f(x[0]), f(x[1]), f(x[2]), f(x[3]), f(x[4])], [f(start[0]), f(start[1]), f(start[2]), f(start[3]), f(start[4])]),
+        _ => unreachable!(),
+    }
+}
+
 fn ws(xs: &[u64]) -> Value {
     Value::Array(xs.iter().map(|x| limbs(*x)).collect())
 }
@@ -220,10 +254,27 @@ pub fn record(args: &[String]) -> anyhow::Result<()> {
         if a % P != 0 {
             log.put(&json!({"op": "inv", "a": limbs(a), "r": fl(f(a).inverse())}));
         }
+        // try_inverse / is_zero / equality on every representation (0 and p both denote zero)
+        let ti = guarded(|| f(a).try_inverse());
+        match ti {
+            Ok(v) => log.put(&json!({"op": "tryinv", "a": limbs(a), "none": v.is_none(), "r": fl(v.unwrap_or(F::ZERO))})),
+            Err(m) => log.put(&json!({"op": "panic", "in": "try_inverse", "a": limbs(a), "msg": m})),
+        }
+        log.put(&json!({"op": "iszero", "a": limbs(a), "z": f(a).is_zero()}));
+        let b2 = if a % 2 == 0 { a.wrapping_add(P) } else { a ^ 1 };
+        log.put(&json!({"op": "eq", "a": limbs(a), "b": limbs(b2), "z": f(a) == f(b2)}));
         // signed reductions
         let n = a as i64;
         let (neg, mag) = if n < 0 { (true, n.unsigned_abs()) } else { (false, n as u64) };
         log.put(&json!({"op": "i64", "neg": neg, "mag": limbs(mag), "r": fl(F::from_noncanonical_i64(n))}));
+    }
+    for &a in un.iter().take(24) {
+        let z = f(a) + (-f(a)); // raw representation may be p
+        let raw = z.to_noncanonical_u64();
+        match guarded(|| z.try_inverse()) {
+            Ok(v) => log.put(&json!({"op": "tryinv", "a": limbs(raw), "none": v.is_none(), "r": fl(v.unwrap_or(F::ZERO))})),
+            Err(m) => log.put(&json!({"op": "panic", "in": "try_inverse", "a": limbs(raw), "msg": m})),
+        }
     }
     // wide reductions: u96, u128, multiply-accumulate, add/sub_canonical
     let mut k = 0usize;
@@ -304,6 +355,13 @@ pub fn record(args: &[String]) -> anyhow::Result<()> {
             let (bits, steps, sqs) = ext_chain(&a, e, ext_w(d));
             log.put(&json!({"op": "echain", "d": d, "a": ws(&a), "e": limbs(e), "bits": bits, "steps": steps, "sqs": sqs,
                             "r": fls(&ext_unary_real(d, &a, "exp", e).unwrap())}));
+        }
+        // Powers::repeated_frobenius must commute with taking powers, also for an iterator that has advanced
+        // and for shifted_powers with an extension start (elementwise Frobenius is validated by the chains above)
+        let x: Vec<u64> = (0..d).map(|_| r.gen()).collect();
+        let st: Vec<u64> = (0..d).map(|_| r.gen()).collect();
+        for (got, exp) in powers_frobenius(d, &x, &st) {
+            log.put(&json!({"op": "eeq", "d": d, "a": fls(&got), "b": fls(&exp)}));
         }
         // generators: W is a non-residue of the right kind: DTH_ROOT^D = 1 is covered by frob
     }
